@@ -100,7 +100,7 @@ class Loop:
 class Contract:
     def __init__(self, qualname, params=None, returns=None, requires=(), ensures=(), modifies=(),
                  raises=None, loops=None, tags=(), inline=False, locals_=None, old=None,
-                 pure=False, self_type=None, raises_ensures=None, note=""):
+                 pure=False, self_type=None, raises_ensures=None, note="", of=None):
         self.qualname = qualname
         self.params = params or {}          # {param: type-string}
         self.returns = returns              # type-string or None
@@ -117,6 +117,7 @@ class Contract:
         self.self_type = self_type
         self.note = note
         self.namespace = None
+        self.of = of              # a variant 'qualname#tag' verifies the source of `of` under different parameter types
 
 
 class SpecFn:
